@@ -361,6 +361,9 @@ func (ex *Exec) loadBase(st *State, l *Loc) Term {
 	case LElem:
 		k := c.keyElem(l.ElemT)
 		info := c.heapSorts[k]
+		if l.SliceT.S != "" {
+			return c.elemAt(k, c.heapGet(st, k), l.SliceT, l.RelIdx)
+		}
 		arr := Select(c.heapGet(st, k), l.Ref, ArraySort(c.idxSort(), info.elem))
 		if l.Idx.S == "" {
 			return arr
@@ -631,7 +634,7 @@ func (ex *Exec) mergeStates(states []*State, conds []Term, hint string) *State {
 	// base
 	same := true
 	for _, s := range states[1:] {
-		if s.base != states[0].base {
+		if s.base != states[0].base || len(s.alts) > 0 || len(states[0].alts) > 0 {
 			same = false
 		}
 	}
@@ -640,6 +643,20 @@ func (ex *Exec) mergeStates(states []*State, conds []Term, hint string) *State {
 	} else {
 		c.fresh++
 		n.base = c.fresh
+		// remember which epoch applies under which condition (for keys first used after this merge)
+		for i, s := range states {
+			if len(s.alts) > 0 {
+				for _, a := range s.alts {
+					n.alts = append(n.alts, baseAlt{cond: And(conds[i], a.cond), base: a.base})
+				}
+			} else {
+				n.alts = append(n.alts, baseAlt{cond: conds[i], base: s.base})
+			}
+		}
+		if len(n.alts) > 24 {
+			// too many alternatives: fall back to an unconstrained epoch (sound over-approximation)
+			n.alts = nil
+		}
 	}
 	// cells
 	cellSet := map[*ssa.Alloc]bool{}
@@ -1174,7 +1191,7 @@ func (ex *Exec) doIndexAddr(in *ssa.IndexAddr) {
 	case *types.Slice:
 		s := ex.val(in.X).T
 		ex.obligeSafety("idx", ex.pos(in.Pos()), fmt.Sprintf("index in range of %s", exprName(in.X)), ex.inBounds(idx, ex.sliceLen(s)))
-		ex.vals[in] = Val{Ty: in.Type(), Loc: &Loc{Kind: LElem, Ref: sliceArr(s), ElemT: u.Elem(), Idx: c.define("ix", ex.idxAdd(ex.sliceOff(s), idx)), Ty: u.Elem()}}
+		ex.vals[in] = Val{Ty: in.Type(), Loc: &Loc{Kind: LElem, Ref: sliceArr(s), ElemT: u.Elem(), Idx: c.define("ix", ex.idxAdd(ex.sliceOff(s), idx)), Ty: u.Elem(), SliceT: s, RelIdx: idx}}
 	case *types.Pointer:
 		arr := u.Elem().Underlying().(*types.Array)
 		ex.obligeSafety("idx", ex.pos(in.Pos()), "array index in range", ex.inBounds(idx, c.idxLit(arr.Len())))
@@ -1496,6 +1513,9 @@ func (ex *Exec) bytesOfString(s Term) Term {
 	}
 	c.heapSet(ex.st, k, Store(c.heapGet(ex.st, k), ref, arr))
 	ln := T(idx, "(str.len %s)", s.S)
+	// converting the fresh bytes back yields the string (holds for the array value, whatever happens to the heap later)
+	ex.declOfBytes()
+	c.assume(T(SBool, "(= (str.ofbytes %s %s %s) %s)", arr.S, zero.S, ln.S, s.S))
 	return ex.mkSlice(ref, zero, ln, ln)
 }
 
@@ -1503,13 +1523,8 @@ func (ex *Exec) bytesOfString(s Term) Term {
 func (ex *Exec) stringOfBytes(st *State, b Term) Term {
 	c := ex.c
 	k := c.keyElem(types.Typ[types.Uint8])
-	idx := c.idxSort()
 	h := c.heapGet(st, k)
-	c.decl("fn:str.ofbytes", fmt.Sprintf("(declare-fun str.ofbytes (%s %s %s) Str)", ArraySort(idx, c.intSort(8, false)), idx, idx))
-	if c.Mode == ArithInt {
-		c.decl("ax:ofbytes.len", "(assert (forall ((a (Array Int Int)) (o Int) (n Int)) (! (=> (>= n 0) (= (str.len (str.ofbytes a o n)) n)) :pattern ((str.ofbytes a o n)))))")
-		c.decl("ax:ofbytes.at", "(assert (forall ((a (Array Int Int)) (o Int) (n Int) (i Int)) (! (=> (and (<= 0 i) (< i n)) (= (str.at (str.ofbytes a o n) i) (select a (+ o i)))) :pattern ((str.at (str.ofbytes a o n) i)))))")
-	}
+	ex.declOfBytes()
 	return T(SStr, "(str.ofbytes (select %s (s.arr %s)) (s.off %s) (s.len %s))", h.S, b.S, b.S, b.S)
 }
 
